@@ -10,6 +10,7 @@ class Result:
 
     def __init__(self, pid):
         self.pid = pid
+        self.broken = []
         self.obs = []
         self.assumptions = []
         self.notes = []
@@ -50,7 +51,11 @@ class Result:
         """a rule that matches fewer instances than confirmed by hand is broken, never a pass"""
         self.analysed['%s: %s' % (rule, what)] = count
         if count < minimum:
-            raise AnalysisBroken('%s %s: %s matched %d instance(s), floor is %d' % (self.pid, rule, what, count, minimum))
+            # deferred: a change that removes an anchor is often reported by a neighbouring rule of the same check, and a
+            # VIOLATION is the more useful verdict; with no violation the run still ends as ANALYSIS-BROKEN (exit 2), never as a pass
+            self.broken.append('%s %s: %s matched %d instance(s), floor is %d' % (self.pid, rule, what, count, minimum))
+            return False
+        return True
 
     def count(self, status, rule=None):
         return sum(1 for o in self.obs if o['status'] == status and (rule is None or o['rule'] == rule))
@@ -134,6 +139,10 @@ def finish(res, tier, seed, t0, level='other', technique='', extra=None, checker
     ev = dict(property_id=res.pid, tier=tier, seed=seed, level=level, coverage=cov,
               assumptions=res.assumptions, wall_s=round(time.time() - t0, 3), violations=len(new),
               known_findings=[dict(rule=o['rule'], key=o['key'], what=k.get('what', '')) for o, k in matched], notes=res.notes)
+    for m in res.broken:
+        print(('   note (analysis incomplete): ' if new else 'ANALYSIS-BROKEN property=%s: ' % res.pid) + m)
+    if res.broken and not new:
+        return 2                             # no evidence is written for a broken analysis
     if os.environ.get('VERIF_NO_EVIDENCE'):
         return 1 if new else 0
     tmp = os.path.join(VERIF, 'evidence', res.pid + '.json.tmp')
